@@ -7,6 +7,8 @@ LEVEL_TEXT = ("bounded symbolic model checking of the real Go code: the anchored
 NOTE_COMMON = ("trusted: go/ssa lowering, the gosym interpreter and its Int-with-wrap encoding, the theory summaries of math.Int/LegacyDec/sdk.Coins/big.Int/time "
   "(cross-checked each run by replaying solver-chosen traces through the native build), z3; ")
 checks = {
+ "C07": dict(note="decides: gasUsed = max(floor(gasLimit x minGasMultiplier), EVM gas after the EIP-3529 refund) <= gasLimit for any interpreter outcome (real ApplyMessageWithConfig, EVM stubbed); after RefundGas the sender's net payment and the fee collector's income are exactly gasUsed x effective price; VerifyFee = gasLimit x effective price and rejects fee cap < base fee; eth-route and Cosmos-route min-gas-price decorators accept only fee >= gasLimit x minGasPrice (two-sided). NOT decided: contract creation, DeductFees plumbing, multi-message ApplyTransaction", design="6/C07"),
+ "C03": dict(note="PARTIAL (replay protection only): decides that the eth-route sequence decorator accepts a message iff nonce = sender's current sequence, consumes exactly one sequence number per accepted message (any interleaving of 2 senders, <= 3 messages) and rejects an immediate replay; NOT decided: that signatures bind content and chain id (keccak/RLP/secp256k1/EIP-712 cannot be encoded), the Cosmos/EIP-712 routes", design="6/C03"),
  "C18": dict(note="PARTIAL: decides that FromEthereumTx -> packed tx data -> AsTransaction is the identity on every field (nonce, gas, price/tip/cap, value, to, data, access list, chain id, v/r/s, type) for the three types incl. nil vs zero, and that Fee / Cost / EffectiveGasPrice / EffectiveFee / EffectiveCost equal the go-ethereum figures of the original. NOT decided: the protobuf encode/decode leg (BuildTx, TxEncoder/Decoder), hash and sender equality (they are functions of exactly the compared fields; keccak/RLP/secp256k1 are not encoded)", design="6/C18"),
  "C06": dict(note="decides on the real handler built by NewAnteHandler: unknown first extension option => rejected; top-level MsgEthereumTx on any Cosmos route => rejected; a disabled type inside MsgExec at any depth within the bound, or granted by MsgGrant => rejected; nothing-blocked forests pass the blocking checks (two-sided). Exhaustive enumeration of bounded message forests (all values concrete after the symbolic choice). NOT decided: per-decorator type assertions on the eth route", design="6/C06", technique="bounded symbolic execution of go/ssa; exhaustive path enumeration over bounded message forests (solver used for feasibility/witnesses only)"),
  "C19": dict(note="PARTIAL: decides Export(Init(Export(S))) = Export(S) and getter agreement for coinomics, fee market, liquid vesting and UC DAO from an arbitrary module state; NOT decided: x/evm, x/erc20, vesting accounts (x/auth), epochs, app/export.go, and the JSON/protobuf encoding of the document", design="6/C19"),
@@ -20,7 +22,7 @@ checks = {
 }
 na = {
 }
-pending = "C01 C02 C03 C04 C05 C07 C10 C16".split()
+pending = "C01 C02 C04 C05 C10 C16".split()
 m = {
  "version": 1,
  "setup_cmd": "cd /verif/engine && GOFLAGS=-mod=mod GOPROXY=off GOSUMDB=off GOTOOLCHAIN=local go build -o /verif/bin/vcheck ./cmd/vcheck",
